@@ -18,7 +18,7 @@ CONSTANTS Labels, Cmds, Names, DeclSets, Contents, FpKeys, FpVals, OutSets, Plat
 \* byte order of the strings used (Go sorts by bytes): rank tables for the menus
 Rank(s) == CASE s = "" -> 0 [] s = "a" -> 10 [] s = "a,b" -> 11 [] s = "ab" -> 12 [] s = "b" -> 13
              [] s = "k" -> 20 [] s = "k=v" -> 21 [] s = "platform" -> 33 [] s = "o" -> 30 [] s = "o,p" -> 31 [] s = "p" -> 32
-             [] s = "h1" -> 40 [] s = "h2" -> 41 [] s = "file::o" -> 50 [] s = "file::o,p" -> 51 [] s = "file::p" -> 52
+             [] s = "h1" -> 40 [] s = "h2" -> 41 [] s = "w" -> 60 [] s = "file::o" -> 50 [] s = "file::o,p" -> 51 [] s = "file::p" -> 52
              [] OTHER -> 99
 Sorted(S) == SetToSortSeq(S, LAMBDA x, y : Rank(x) < Rank(y))
 
